@@ -345,6 +345,40 @@ func c16Worker(args []string) int {
 				}
 			}
 		}
+		// ... and for a file made by hand, restored with an Alias map filled by hand: keys that look alike (a
+		// package and its vendored copy, paths that differ in case or in a trailing element) are different
+		// keys, and which alias a package gets never depends on the iteration order of that map
+		{
+			aliases := map[string]string{"example.com/lib/worker": "w", "example.com/app/vendor/example.com/lib/worker": "vendored",
+				"example.com/lib/Worker": "up", "vendor/example.com/lib/worker": "std", "example.com/lib/worker/v2": "w2"}
+			first := ""
+			for k := 0; k < 120; k++ {
+				var stmts []dst.Stmt
+				for _, p := range []string{"example.com/lib/worker", "example.com/lib/worker/v2"} {
+					stmts = append(stmts, &dst.ExprStmt{X: &dst.CallExpr{Fun: &dst.Ident{Name: "Do", Path: p}}})
+				}
+				f := &dst.File{Name: dst.NewIdent("main"), Decls: []dst.Decl{&dst.FuncDecl{Name: dst.NewIdent("main"), Type: &dst.FuncType{}, Body: &dst.BlockStmt{List: stmts}}}}
+				fr := decorator.NewRestorerWithImports("main", guess.New()).FileRestorer()
+				for p, a := range aliases {
+					fr.Alias[p] = a
+				}
+				var buf bytes.Buffer
+				if err := fr.Fprint(&buf, f); err != nil {
+					fmt.Println("DIFF repeat-alias: error", err)
+					break
+				}
+				if first == "" {
+					first = buf.String()
+					if !strings.Contains(first, "w \"example.com/lib/worker\"") || !strings.Contains(first, "w.Do()") {
+						fmt.Printf("DIFF repeat-alias: the alias given for example.com/lib/worker is w, the file is restored as\n%s\n", first)
+						break
+					}
+				} else if buf.String() != first {
+					fmt.Printf("DIFF repeat-alias %d: output differs between identical calls:\n%s\nvs\n%s\n", k, first, buf.String())
+					break
+				}
+			}
+		}
 		// ... and with Restorer.Extras on a file whose scope still knows declarations that were removed from
 		// the tree (objects are kept in maps): the same bytes every time, and the same as without Extras
 		{
